@@ -190,7 +190,7 @@ CHECKS = {
     },
     "C05": {
         "text": ("Lean theorems (unbounded): replaying the notified events on the old listing gives the new one (notifications_replay); nothing is notified when "
-                 "nothing changed (unchanged_is_silent); a modify implies a changed identity, every new or changed path is notified (unchanged_never_notified, every_change_notified), and every old path the new listing lacks is covered by a notification that removes it or an entry above it (every_removal_notified). Correspondence: NotifyHashed callbacks of real transfers vs the model's event set, the executable "
+                 "nothing changed (unchanged_is_silent); a modify implies a changed identity, every new or changed path is notified (unchanged_never_notified, every_change_notified), and every old path the new listing lacks is covered by a notification that removes it or an entry above it (every_removal_notified); notification paths are strictly ascending, so no path is notified twice (each_path_notified_once). Correspondence: NotifyHashed callbacks of real transfers vs the model's event set, the executable "
                  "listing-level spec (each changed path once, unchanged never, top-most deletes) on the real notifications, and the digest recomputed "
                  "independently as hash(header of the stat as sent ++ bytes now stored)."),
         "note": ("Trusted: Lean kernel + standard axioms; add and modify are both read as 'path now carries this entry' (the code reports every regular file "
